@@ -46,10 +46,10 @@ class BodyError(Exception):
 SENTINEL = object()
 
 
-def signatures():
+def signatures(max_params=3):
     """Yield (params, method?) with params = [(kind, name, has_default)]"""
     order = {"po": 0, "pk": 1, "va": 2, "ko": 3, "vk": 4}
-    for n in range(0, 4):
+    for n in range(0, max_params + 1):
         for kinds in itertools.product(KINDS, repeat=n):
             if list(kinds) != sorted(kinds, key=lambda k: order[k]):
                 continue
@@ -69,7 +69,7 @@ def signatures():
                         ok = False
                 if not ok:
                     continue
-                base = ["x", "y", "z"][:n]
+                base = ["x", "y", "z", "w"][:n]
                 namings = [list(base)]
                 for i in range(n):
                     for sp in SPECIAL:
@@ -120,9 +120,9 @@ def call_lists(params):
     names = [p[1] for p in params if p[0] in ("po", "pk", "ko")]
     n = len(names)
     out = []
-    vals = ["v0", None, "v2", "v3"]
+    vals = ["v0", None, "v2", "v3", "v4"]
     for npos in range(0, n + 2):
-        if npos > 3:
+        if npos > 4:
             continue
         for kwn in range(0, n + 1):
             for kwnames in itertools.combinations(names, kwn):
@@ -141,21 +141,20 @@ def call_lists(params):
 
 
 def BOUNDS(tier):
-    return {"max_params": 3}
+    return {"max_params": 3 if tier == "quick" else 4}
 
 
-_SIGS = None
+_SIGS = {}
 
 
-def sigs():
-    global _SIGS
-    if _SIGS is None:
-        _SIGS = list(signatures())
-    return _SIGS
+def sigs(tier="quick"):
+    if tier not in _SIGS:
+        _SIGS[tier] = list(signatures(BOUNDS(tier)["max_params"]))
+    return _SIGS[tier]
 
 
 def units(tier):
-    n = len(sigs())
+    n = len(sigs(tier))
     return [[i, min(i + 60, n)] for i in range(0, n, 60)] + [["meta"]]
 
 
@@ -164,7 +163,7 @@ def cases(unit, tier):
         yield ["meta"]
         return
     for i in range(unit[0], unit[1]):
-        yield ["sig", sigs()[i]]
+        yield ["sig", sigs(tier)[i]]
 
 
 def outcome_of(fn, args, kwargs):
